@@ -6,6 +6,7 @@ import (
 	"bufio"
 	"fmt"
 	"io"
+	"os"
 	"os/exec"
 	"strconv"
 	"strings"
@@ -40,6 +41,11 @@ type Solver struct {
 	LastErr  string
 	Dump     io.Writer // optional transcript
 	nqueries int
+
+	ctxLog     []string // everything sent at scope depth 0 since the last reset
+	depth      int
+	Fallbacks  int // queries re-decided by a one-shot solver run
+	FallbackMs int
 }
 
 func NewSolver(path string, timeoutMs int) (*Solver, error) {
@@ -101,6 +107,9 @@ func (s *Solver) Close() {
 }
 
 func (s *Solver) send(str string) {
+	if s.depth == 0 && !strings.HasPrefix(str, "(check-sat") && !strings.HasPrefix(str, "(reset") && !strings.HasPrefix(str, "(push") && !strings.HasPrefix(str, "(pop") {
+		s.ctxLog = append(s.ctxLog, str)
+	}
 	if s.Dump != nil {
 		io.WriteString(s.Dump, str)
 	}
@@ -114,7 +123,59 @@ func (s *Solver) send(str string) {
 func (s *Solver) Reset() {
 	s.send("(reset)\n")
 	s.emitted = map[int]bool{}
+	s.ctxLog = s.ctxLog[:0]
+	s.depth = 0
 	s.preamble()
+}
+
+// oneShot re-decides (context ∧ extra) with fresh solver processes in file mode
+// (their preprocessing is much stronger than the incremental mode's).
+func (s *Solver) oneShot(extra *Term) SatResult {
+	if s.FallbackMs <= 0 {
+		return Unknown
+	}
+	t0 := time.Now()
+	defer func() { s.WallNs += int64(time.Since(t0)) }()
+	var sb strings.Builder
+	for _, l := range s.ctxLog {
+		if strings.HasPrefix(l, "(set-option") {
+			continue
+		}
+		sb.WriteString(l)
+	}
+	if extra != nil {
+		sb.WriteString("(assert " + extra.ref() + ")\n")
+	}
+	sb.WriteString("(check-sat)\n")
+	f, err := os.CreateTemp("", "gosym-*.smt2")
+	if err != nil {
+		return Unknown
+	}
+	defer os.Remove(f.Name())
+	f.WriteString(sb.String())
+	f.Close()
+	secs := s.FallbackMs / 1000
+	for _, cmd := range [][]string{
+		{"z3", fmt.Sprintf("-T:%d", secs), f.Name()},
+		{"cvc5", fmt.Sprintf("--tlimit=%d", s.FallbackMs), "--lang=smt2", f.Name()},
+	} {
+		out, _ := exec.Command(cmd[0], cmd[1:]...).CombinedOutput()
+		txt := string(out)
+		if strings.Contains(txt, "(error") {
+			continue
+		}
+		for _, line := range strings.Split(txt, "\n") {
+			switch strings.TrimSpace(line) {
+			case "unsat":
+				s.Fallbacks++
+				return Unsat
+			case "sat":
+				s.Fallbacks++
+				return Sat
+			}
+		}
+	}
+	return Unknown
 }
 
 // define makes sure t and all its sub-terms are defined in the solver.
@@ -176,6 +237,7 @@ func (s *Solver) Check(extra *Term) SatResult {
 	}
 	if extra != nil {
 		s.define(extra)
+		s.depth++
 		s.send("(push 1)\n(assert " + extra.ref() + ")\n(check-sat)\n")
 	} else {
 		s.send("(check-sat)\n")
@@ -183,6 +245,10 @@ func (s *Solver) Check(extra *Term) SatResult {
 	res := s.readResult()
 	if extra != nil {
 		s.send("(pop 1)\n")
+		s.depth--
+	}
+	if res == Unknown {
+		res = s.oneShot(extra)
 	}
 	s.Queries[res]++
 	s.nqueries++
@@ -202,6 +268,7 @@ func (s *Solver) CheckModel(extra *Term, terms []*Term) (SatResult, []uint64) {
 	for _, v := range terms {
 		s.define(v)
 	}
+	s.depth++
 	if extra != nil {
 		s.define(extra)
 		s.send("(push 1)\n(assert " + extra.ref() + ")\n(check-sat)\n")
@@ -229,6 +296,7 @@ func (s *Solver) CheckModel(extra *Term, terms []*Term) (SatResult, []uint64) {
 		}
 	}
 	s.send("(pop 1)\n")
+	s.depth--
 	s.Queries[res]++
 	s.nqueries++
 	s.WallNs += int64(time.Since(t0))
